@@ -74,6 +74,12 @@ func (impl Implementation) Dlarf(side blas.Side, m, n int, v []float64, incv int
 			lastv--
 			i -= incv
 		}
+		if incv < 0 && lastv >= 0 {
+			// With a negative increment the trailing elements of v are
+			// stored first. The BLAS calls below address lastv+1 elements
+			// relative to the start of the slice, so skip the trimmed zeros.
+			v = v[i:]
+		}
 		if applyleft {
 			// Scan for the last non-zero column in C[0:lastv, :]
 			lastc = impl.Iladlc(lastv+1, n, c, ldc)
